@@ -738,6 +738,9 @@ func main() {
 			emit(w, c.kind, o)
 		}
 	}
+	for _, o := range ch.pinned {
+		emitCompound(w, o)
+	}
 	for _, o := range ch.res {
 		emitCompound(w, o)
 	}
